@@ -828,10 +828,14 @@ def _compare_validation(rc, rp):
         if rc.get("exc_type") != rp.get("exc_type"):
             diffs.append(f"exception {rc.get('error')} vs {rp.get('error')}")
         return diffs
-    cp = [tuple(c) for c in rp.get("claims", [])]
-    cc = [tuple(c) for c in rc["claims"]]
-    if cc != cp:
-        diffs.append(f"claims differ: const={[c for c in cc if c not in cp][:4]} plain={[c for c in cp if c not in cc][:4]}")
+    cp = dict(tuple(c) for c in rp.get("claims", []))
+    cc = dict(tuple(c) for c in rc["claims"])
+    common = [n for n in cc if n in cp]
+    bad = [(n, cc[n], cp[n]) for n in common if cc[n] != cp[n]]
+    if bad:
+        diffs.append(f"claims differ (name, instrumented, plain): {bad[:4]}")
+    if not common and (cc or cp):
+        diffs.append("no common claims between the instrumented and the plain run")
     oc, op = rc["observed"], rp.get("observed", {})
     for k in oc:
         if k not in op:
